@@ -1,26 +1,34 @@
 /-
   C08 — a parser's result depends only on its own definition and the argv of that call.
 
-  Model: `SpVerif.Model.History` (a pool of parsers + the process-global spelling settings as a state
-  machine), following the code AFTER the repairs of D5 (7b430cf: `_preprocessing` re-asserts the parser's
-  own settings) and D6 (1720e54: `--config_path` is registered once).
-  `fresh env spec known argv` is the answer of a freshly built, identically configured parser.
+  Model: `SpVerif.Model.History` (a pool of parsers + the FieldWrapper class attributes `G` as a state machine; /repo
+  at c681aea).  `fresh env spec known argv` is the answer of a freshly built, identically configured parser.
 
-  * `FullStatement` — every parse call of every history returns the fresh answer — is kept visible and is
-    still REFUTED on the current code in three independent ways, each by a concrete witness history:
-    `d9_witness`, `d9_help_witness`, `d10_witness`, `d10_later_witness`, `d10_help_witness`,
-    `lateAdd_witness`  (⇒ `c08_full_false`).  The former D5 / D6 / D8 witness histories now satisfy
-    the statement (`d5_regression`, `d6_regression`, `d8_regression`), as does `print_help` before the first
-    parse of a constructor-`config_path=` parser (`helpCtor_regression`).
-  * `c08_partial` — for EVERY history (no bound on its length, no hypothesis on it): every parse call that is
-    `safe` in the state it is made in, on a parser all of whose earlier calls since its construction were
-    `safe`, returns exactly the fresh answer.  `safe` is a decidable predicate made of one named clause per
-    open finding (`d9Safe`, `d10Safe`, `lateSafe`) and two clauses that are PROOF GAPS, not known
-    defects (`cfgSetupSafe`: a `--config_path` parser whose set-up was not made by a completed parse call —
-    the registered actions are then in another order than in a fresh parser and no permutation lemma is
-    proved; `ctorFilesPristine`: parsers with constructor `config_path=` files are covered on their first call
-    only).  The process-global settings `G` no longer appear in `safe` or in the invariant: no result depends on
-    them any more.
+  * `FullStatement` — every parse call of every history returns the fresh answer — is kept visible and is REFUTED on
+    the current code in four independent ways, each by concrete witness histories: D9 (`d9_witness`,
+    `d9_help_witness`, `d9_errkind_witness`), D10 (`d10_witness`, `d10_later_witness`, `d10_help_witness`), a root-less
+    config file read after the set-up (`rootless_witness`, `rootless_argv_witness` — found in round 2), late
+    `add_arguments` (`lateAdd_witness`)  ⇒ `c08_full_false`.  Repaired defects are regression examples
+    (`d5_regression`, `d6_regression`, `d8_regression`, `helpCtor_regression`).
+  * `c08_partial` (hypothesis `env.reassert = true`, i.e. the tree WITH the D5 repair) — for EVERY history, no bound
+    on its length, no hypothesis on it: every parse call that is `safe` in the state it is made in, on a parser all of
+    whose earlier calls since its construction kept its state (`keeps`), returns exactly the fresh answer — whatever
+    the class attributes are at that moment.  `safe = safeState ∧ safeAnswer`: `safeState` (`d10Safe`, and two PROOF
+    GAPS that are not defects: `cfgSetupSafe` — a `--config_path` parser whose set-up was not made by a completed parse
+    call has its actions in another order than a fresh parser, no permutation lemma is proved; `ctorReloadSafe` —
+    for a set-up parser with constructor `config_path=` files the theorem CHECKS on the state that re-applying the
+    files changes nothing and that a fresh parser reads the same defaults, instead of proving `loadFiles` idempotent;
+    the implied `add_config_path_arg` form is outside the model) protects the invariant; `safeAnswer` (`d9Safe`,
+    `lateSafe`) only concerns the answer of that call: a call violating it is excluded but does NOT taint the parser.
+  * The clauses "construction or use of other parsers with different settings" / "keeps generating the option spelling
+    it was configured with" are NOT true by construction of the model: `Model/History.preprocess` receives the class
+    attributes, WRITES the parser's own settings (only if `env.reassert`) and generates the option strings from what
+    it then READS.  `preprocess_fst` is the one lemma that uses the repair; `parse_out_indep_of_globals` states the
+    clause; `d5_old_witness` shows the same safe history violating the statement on the tree before 7b430cf.  The
+    trajectory of the class attributes themselves is tied to the code by the `g` observable of the plug-in.
+  * The `parse_tuple` closure counters are not part of the state (see the header of `Model/History`): alignment after
+    an accepted command line is `C04.c04_counters_aligned`, conversion from an aligned counter is
+    `C02.c02_tuple_occurrence`; the reset after a rejected value is observed on the real closures after every call.
   * `c08_partial_safeHist` — the plain form: if every call of a history is `safe`, every parse agrees.
 -/
 import SpVerif.Model.History
@@ -47,7 +55,9 @@ def FullStatement : Prop := ∀ (env : Env) (ops : List Op), allAgree env init o
 
 /-! ### the named exclusions -/
 
-/-- D9: on an already set-up parser, this argv selects the subgroup alternatives that were frozen -/
+/-- D9: on an already set-up parser, this argv selects the subgroup alternatives that were frozen.  An argv the
+    subgroup-choice parser would REJECT is excluded as well: the frozen parser may then fail for another reason than a
+    fresh one (`d9_errkind_witness`) -/
 def d9Safe (env : Env) (p : PState) (argv : List Str) : Bool :=
   !p.preDone ||
   (match cfgScan env p.spec.cfgPath argv with
@@ -57,10 +67,11 @@ def d9Safe (env : Env) (p : PState) (argv : List Str) : Bool :=
       | .ok fregs => decide (fregs = p.frozen)
       | .error _ => false))
 
-/-- D10: no default pushed by an earlier call is still in the wrappers, and a parser that is already set up is
-    not given config files (they would be read but ignored by the frozen actions) -/
+/-- D10 / root-less-after-set-up: no default pushed by an earlier call is still in the wrappers or in argparse's
+    parser-level defaults, and a parser that is already set up is not given config files (they would be read but
+    ignored by the frozen actions, or mis-read) -/
 def d10Safe (env : Env) (p : PState) (argv : List Str) : Bool :=
-  decide (p.fileDefs = []) &&
+  decide (p.fileDefs = []) && decide (p.stray = []) &&
   (!p.preDone ||
    (match cfgScan env p.spec.cfgPath argv with
     | .error _ => true
@@ -74,17 +85,38 @@ def lateSafe (p : PState) : Bool := p.late.isEmpty
     parse stopped between registration and set-up) -/
 def cfgSetupSafe (p : PState) : Bool := !p.spec.cfgPath || (p.preDone == p.cfgDefault.isSome)
 
-def safeParse (env : Env) (p : PState) (argv : List Str) : Bool :=
+/-- constructor `config_path=` files are re-applied by every call (parsing.py:306-312): reading them again changes
+    nothing, and a fresh parser reads exactly the same defaults from them.  (A decidable check of the state, not a
+    proved property of `loadFiles`: idempotence of `unionDefs` is not proved.  It FAILS exactly for
+    `rootless_witness`: after the set-up the root-less file is mis-read.) -/
+def ctorReloadSafe (env : Env) (p : PState) : Bool :=
+  decide (loadFiles env (loadCtx p) p.fileDefs p.stray p.spec.cfgFiles = .ok p.fileDefs p.stray) &&
+  decide (loadFiles env (loadCtx (newP p.spec)) [] [] p.spec.cfgFiles = .ok p.fileDefs p.stray)
+
+/-- the part of `safe` that protects the STATE of the parser: a call violating it may leave the parser in a state
+    the invariant does not describe, and the theorem stops speaking about that parser -/
+def safeState (env : Env) (p : PState) (argv : List Str) : Bool :=
   !p.broken &&
-  (if p.spec.cfgFiles.isEmpty then
-     d9Safe env p argv && d10Safe env p argv && lateSafe p && cfgSetupSafe p
+  (if p.spec.cfgFiles.isEmpty then d10Safe env p argv && cfgSetupSafe p
    else
-     -- PROOF GAP: parsers with constructor `config_path=` files are covered on their first call only
-     decide (p = newP p.spec))
+     -- constructor `config_path=` files (without the `--config_path` argument): pristine, or set up with
+     -- `ctorReloadSafe`
+     !p.spec.cfgPath && (decide (p = newP p.spec) || (p.preDone && ctorReloadSafe env p)))
+
+/-- the part of `safe` that only concerns THIS call's answer: a call violating it gets a wrong answer (D9, late add)
+    but leaves the parser as the invariant describes it — later calls are covered again -/
+def safeAnswer (env : Env) (p : PState) (argv : List Str) : Bool := d9Safe env p argv && lateSafe p
+
+def safeParse (env : Env) (p : PState) (argv : List Str) : Bool := safeState env p argv && safeAnswer env p argv
 
 /-- `safe` for one call in state `s`: only parse calls can be unsafe -/
 def safe (env : Env) (s : State) : Op → Bool
   | .parse i _ argv => (match s.pool i with | some p => safeParse env p argv | none => true)
+  | _ => true
+
+/-- does this call keep the parser it addresses inside the invariant? -/
+def keeps (env : Env) (s : State) : Op → Bool
+  | .parse i _ argv => (match s.pool i with | some p => safeState env p argv | none => true)
   | _ => true
 
 /-! ### the invariant -/
@@ -97,7 +129,8 @@ def preTbl : Option Val → List Act
 /-- the state of a parser that is not set up: nothing but its definition, the pushed defaults and the
     registration of `--config_path` -/
 def basePre (p : PState) : PState :=
-  { spec := p.spec, table := preTbl p.cfgDefault, fileDefs := p.fileDefs, cfgDefault := p.cfgDefault }
+  { spec := p.spec, table := preTbl p.cfgDefault, fileDefs := p.fileDefs, cfgDefault := p.cfgDefault,
+    stray := p.stray }
 
 /-- per parser: once set up, its action table is the table of ITS OWN settings for the frozen wrappers -/
 def Core (p : PState) : Prop :=
@@ -106,8 +139,8 @@ def Core (p : PState) : Prop :=
     p.frozen.map (·.reg) ++ p.late = p.spec.regs)
 
 def InvP (p : PState) : Prop :=
-  p.spec.cfgFiles ≠ [] ∨ p.broken = true ∨
-  (Core p ∧ (p.spec.cfgPath = false → p.cfgDefault = none ∧ p.fileDefs = []))
+  (p.spec.cfgFiles ≠ [] ∧ p.spec.cfgPath = true) ∨ p.broken = true ∨
+  (Core p ∧ (p.spec.cfgPath = false → p.cfgDefault = none))
 
 /-- pool invariant; `t i = true` marks parser `i` as having received an unsafe call since its construction -/
 def InvT (s : State) (t : Nat → Bool) : Prop := ∀ i p, s.pool i = some p → t i = false → InvP p
@@ -115,9 +148,9 @@ def InvT (s : State) (t : Nat → Bool) : Prop := ∀ i p, s.pool i = some p →
 def taintStep (env : Env) (s : State) (t : Nat → Bool) (op : Op) : Nat → Bool :=
   match op with
   | .construct i _ _ _ => fun j => if j = i then false else t j
-  | op => if safe env s op then t else fun j => if j = op.idx then true else t j
+  | op => if keeps env s op then t else fun j => if j = op.idx then true else t j
 
-/-- every call that is safe, on a parser that only ever received safe calls, agrees with the fresh answer -/
+/-- every call that is safe, on a parser that only ever received state-keeping calls, agrees with the fresh answer -/
 def Monitored (env : Env) : State → (Nat → Bool) → List Op → Prop
   | _, _, [] => True
   | s, t, op :: ops =>
@@ -133,6 +166,78 @@ def _root_.SpVerif.History.PreOut.st : PreOut → PState
 def _root_.SpVerif.History.CfgOut.st : CfgOut → PState
   | .go p _ => p
   | .stop p _ => p
+
+/-! ### the pipeline with the class attributes eliminated
+
+  `preprocess` WRITES the parser's own settings and then READS them (`Env.reassert`, the D5 repair): under that
+  hypothesis the incoming class attributes are irrelevant and the pipeline equals the `G`-free one below — this is
+  where the repair is load-bearing (`preprocess_fst`; `d5_old_witness` shows it fails without). -/
+
+def preOwn (env : Env) (p : PState) (args : List Str) : PreOut := preprocessAt env p.spec.cfg p args
+
+def finishOwn (env : Env) (p1 : PState) (known : Bool) (rest : List Str) : PState × Out :=
+  finishCore env (preOwn env p1 rest) known rest
+
+def parseOwn (env : Env) (p : PState) (known : Bool) (argv : List Str) : PState × Out :=
+  if p.broken then (p, .unmodelled "parser left the fragment earlier")
+  else
+    match cfgPhase env p argv with
+    | .stop p1 o => (p1, o)
+    | .go p1 rest => finishOwn env p1 known rest
+
+def helpOwn (env : Env) (p : PState) : PState × Out :=
+  if p.broken then (p, .unmodelled "parser left the fragment earlier")
+  else if p.preDone then (p, .unit)
+  else
+    match loadFiles env (loadCtx p) p.fileDefs p.stray p.spec.cfgFiles with
+    | .foreign => ({ p with broken := true }, .unmodelled "constructor config file does not fit the layout")
+    | .missing defs st => ({ p with fileDefs := defs, stray := st }, .raise "FileNotFoundError".toList)
+    | .ok defs st => helpCore (preOwn env { p with fileDefs := defs, stray := st } [])
+
+def freshOwn (env : Env) (spec : Spec) (known : Bool) (argv : List Str) : Out :=
+  (parseOwn env (newP spec) known argv).2
+
+/-- THE place where the D5 repair is used: whatever the class attributes are when `_preprocessing` starts, the
+    option strings are generated from the parser's own settings -/
+theorem preprocess_fst (env : Env) (hr : env.reassert = true) (G : Cfg) (p : PState) (args : List Str) :
+    (preprocess env G p args).1 = preOwn env p args := by
+  unfold preprocess preOwn
+  split
+  · rename_i hpre
+    unfold preprocessAt
+    simp [hpre]
+  · simp [hr]
+
+theorem parseP_own (env : Env) (hr : env.reassert = true) (G : Cfg) (p : PState) (known : Bool) (argv : List Str) :
+    (parseP env G p known argv).1 = (parseOwn env p known argv).1 ∧
+      (parseP env G p known argv).2.1 = (parseOwn env p known argv).2 := by
+  unfold parseP parseOwn
+  cases hb : p.broken
+  · simp only [Bool.false_eq_true, ↓reduceIte]
+    cases hc : cfgPhase env p argv with
+    | stop p1 o => exact ⟨rfl, rfl⟩
+    | go p1 rest =>
+      unfold finishP finishOwn
+      simp [preprocess_fst env hr]
+  · exact ⟨rfl, rfl⟩
+
+theorem helpP_own (env : Env) (hr : env.reassert = true) (G : Cfg) (p : PState) :
+    (helpP env G p).1 = (helpOwn env p).1 := by
+  unfold helpP helpOwn
+  cases hb : p.broken
+  · cases hpre : p.preDone
+    · simp only [Bool.false_eq_true, ↓reduceIte]
+      cases hl : loadFiles env (loadCtx p) p.fileDefs p.stray p.spec.cfgFiles with
+      | foreign => rfl
+      | missing defs st => rfl
+      | ok defs st => simp only [preprocess_fst env hr]
+    · rfl
+  · rfl
+
+theorem fresh_own (env : Env) (hr : env.reassert = true) (spec : Spec) (known : Bool) (argv : List Str) :
+    fresh env spec known argv = freshOwn env spec known argv := by
+  unfold fresh freshOwn
+  exact (parseP_own env hr spec.cfg (newP spec) known argv).2
 
 theorem chooseAll_regs {env : Env} {G : Cfg} {regs : List Reg} {args : List Str} {fregs : List FReg}
     (h : chooseAll env G regs args = .ok fregs) : fregs.map (·.reg) = regs := by
@@ -193,8 +298,8 @@ theorem setCfgDefault_pre (d v : Val) (acts : List Act) :
   simp [setCfgDefault, h1, cfgAct]
 
 theorem preprocess_spec (env : Env) (p : PState) (args : List Str) :
-    (preprocess env p args).st.spec = p.spec := by
-  unfold preprocess
+    (preOwn env p args).st.spec = p.spec := by
+  unfold preOwn preprocessAt
   split
   · rfl
   · split
@@ -203,12 +308,12 @@ theorem preprocess_spec (env : Env) (p : PState) (args : List Str) :
     · split <;> rfl
 
 theorem preprocess_done {env : Env} {p : PState} (h : p.preDone = true) (args : List Str) :
-    preprocess env p args = .ok p := by
-  unfold preprocess; simp [h]
+    preOwn env p args = .ok p := by
+  unfold preOwn preprocessAt; simp [h]
 
 theorem finishP_spec (env : Env) (p : PState) (known : Bool) (rest : List Str) :
-    (finishP env p known rest).1.spec = p.spec := by
-  unfold finishP
+    (finishOwn env p known rest).1.spec = p.spec := by
+  unfold finishOwn finishCore
   have h2 := preprocess_spec env p rest
   split
   · rename_i p2 o heq2; rw [heq2] at h2; exact h2
@@ -236,8 +341,8 @@ theorem cfgPhase_spec (env : Env) (p : PState) (argv : List Str) :
           · split <;> rfl
 
 theorem parseP_spec (env : Env) (p : PState) (known : Bool) (argv : List Str) :
-    (parseP env p known argv).1.spec = p.spec := by
-  unfold parseP
+    (parseOwn env p known argv).1.spec = p.spec := by
+  unfold parseOwn
   split
   · rfl
   · have h1 := cfgPhase_spec env p argv
@@ -247,8 +352,8 @@ theorem parseP_spec (env : Env) (p : PState) (known : Bool) (argv : List Str) :
       rw [heq] at h1
       exact (finishP_spec env p1 known rest).trans h1
 
-theorem helpP_spec (env : Env) (p : PState) : (helpP env p).1.spec = p.spec := by
-  unfold helpP
+theorem helpP_spec (env : Env) (p : PState) : (helpOwn env p).1.spec = p.spec := by
+  unfold helpOwn
   split
   · rfl
   · split
@@ -256,8 +361,9 @@ theorem helpP_spec (env : Env) (p : PState) : (helpP env p).1.spec = p.spec := b
     · split
       · rfl
       · rfl
-      · rename_i defs _
-        have h2 := preprocess_spec env { p with fileDefs := defs } []
+      · rename_i defs st _
+        have h2 := preprocess_spec env { p with fileDefs := defs, stray := st } []
+        unfold helpCore
         split
         · rename_i p2 o heq2; rw [heq2] at h2; exact h2
         · rename_i p2 heq2; rw [heq2] at h2; exact h2
@@ -270,13 +376,13 @@ theorem cfgPhase_plain {env : Env} {p : PState} (hf : p.spec.cfgFiles = []) (hc 
 
 /-- `_preprocessing` of a parser that is not set up latched: the frozen table is the table of its own settings -/
 theorem preprocess_base_ok (env : Env) (p : PState) (args : List Str) (q : PState)
-    (hb : p = basePre p) (hpre : p.preDone = false) (h : preprocess env p args = .ok q) :
+    (hb : p = basePre p) (hpre : p.preDone = false) (h : preOwn env p args = .ok q) :
     q.broken = false ∧ q.preDone = true ∧ Core q ∧ q.spec = p.spec ∧ q.cfgDefault = p.cfgDefault ∧
-      q.fileDefs = p.fileDefs := by
+      q.fileDefs = p.fileDefs ∧ q.stray = p.stray := by
   have hbr : p.broken = false := by rw [hb]; rfl
   have htab : p.table = preTbl p.cfgDefault := by rw [hb]; rfl
   have hlate : p.late = [] := by rw [hb]; rfl
-  unfold preprocess at h
+  unfold preOwn preprocessAt at h
   simp only [hpre, Bool.false_eq_true, ↓reduceIte] at h
   split at h
   · cases h
@@ -288,16 +394,16 @@ theorem preprocess_base_ok (env : Env) (p : PState) (args : List Str) (q : PStat
       injection h with h
       subst h
       rw [htab] at htbl
-      refine ⟨hbr, rfl, Or.inr ⟨rfl, htbl, ?_⟩, rfl, rfl, rfl⟩
+      refine ⟨hbr, rfl, Or.inr ⟨rfl, htbl, ?_⟩, rfl, rfl, rfl, rfl⟩
       show fregs.map (·.reg) ++ p.late = p.spec.regs
       rw [hlate, List.append_nil]
       exact chooseAll_regs hch
 
 /-- … or it stopped (subgroup choice rejected / outside the fragment): nothing was latched -/
 theorem preprocess_base_stop (env : Env) (p : PState) (args : List Str) (q : PState) (o : Out)
-    (hpre : p.preDone = false) (h : preprocess env p args = .stop q o) :
+    (hpre : p.preDone = false) (h : preOwn env p args = .stop q o) :
     q = p ∨ q = { p with broken := true } := by
-  unfold preprocess at h
+  unfold preOwn preprocessAt at h
   rw [if_neg (by rw [hpre]; decide)] at h
   split at h
   · injection h with h _; exact Or.inr h.symm
@@ -309,9 +415,9 @@ theorem preprocess_base_stop (env : Env) (p : PState) (args : List Str) (q : PSt
 /-- from a parser that is not set up, `_preprocessing` + parse + `_postprocessing` keep the invariant -/
 theorem finishP_base_inv (env : Env) (p : PState) (known : Bool) (rest : List Str)
     (hb : p = basePre p) (hpre : p.preDone = false)
-    (hconj : p.spec.cfgPath = false → p.cfgDefault = none ∧ p.fileDefs = []) :
-    InvP (finishP env p known rest).1 := by
-  unfold finishP
+    (hconj : p.spec.cfgPath = false → p.cfgDefault = none) :
+    InvP (finishOwn env p known rest).1 := by
+  unfold finishOwn finishCore
   split
   · rename_i q o heq
     rcases preprocess_base_stop env p rest q o hpre heq with h | h
@@ -322,16 +428,27 @@ theorem finishP_base_inv (env : Env) (p : PState) (known : Bool) (rest : List St
     split
     · exact Or.inr (Or.inl rfl)
     · refine Or.inr (Or.inr ⟨key.2.2.1, fun hc => ?_⟩)
-      obtain ⟨h1, h2⟩ := hconj (by rw [← key.2.2.2.1]; exact hc)
-      exact ⟨key.2.2.2.2.1.trans h1, key.2.2.2.2.2.trans h2⟩
+      exact key.2.2.2.2.1.trans (hconj (by rw [← key.2.2.2.1]; exact hc))
 
 /-- the prologue on a pristine parser stops (file missing / scan rejected / outside the fragment) … -/
-theorem cfgPhase_new_stop (env : Env) (spec : Spec) (hf : spec.cfgFiles = []) (argv : List Str) (q : PState) (o : Out)
+theorem cfgPhase_new_stop (env : Env) (spec : Spec) (hok : spec.cfgFiles = [] ∨ spec.cfgPath = false)
+    (argv : List Str) (q : PState) (o : Out)
     (h : cfgPhase env (newP spec) argv = .stop q o) : InvP q := by
-  unfold cfgPhase at h
   cases hcp : spec.cfgPath
-  · simp [newP, hf, loadFiles, hcp] at h
-  · simp only [newP, hf, loadFiles, hcp, List.isEmpty_nil, Bool.not_true, Bool.false_eq_true, ↓reduceIte] at h
+  · -- no `--config_path` argument: only the constructor files can stop the prologue
+    unfold cfgPhase at h
+    cases hl : loadFiles env (loadCtx (newP spec)) (newP spec).fileDefs (newP spec).stray (newP spec).spec.cfgFiles with
+    | foreign => rw [hl] at h; injection h with h _; subst h; exact Or.inr (Or.inl rfl)
+    | missing d st =>
+      rw [hl] at h; injection h with h _; subst h
+      exact Or.inr (Or.inr ⟨Or.inl ⟨rfl, rfl⟩, fun _ => rfl⟩)
+    | ok d st => rw [hl] at h; simp [newP, hcp] at h
+  · have hf : spec.cfgFiles = [] := by
+      rcases hok with h' | h'
+      · exact h'
+      · rw [hcp] at h'; cases h'
+    unfold cfgPhase at h
+    simp only [newP, hf, loadFiles, hcp, List.isEmpty_nil, Bool.not_true, Bool.false_eq_true, ↓reduceIte] at h
     have vac : ∀ {P : Prop}, spec.cfgPath = false → P := fun h' => by rw [hcp] at h'; cases h'
     split at h
     · injection h with h _; subst h; exact Or.inr (Or.inl rfl)
@@ -343,16 +460,27 @@ theorem cfgPhase_new_stop (env : Env) (spec : Spec) (hf : spec.cfgFiles = []) (a
         exact Or.inr (Or.inr ⟨Or.inl ⟨rfl, rfl⟩, fun hc' => vac hc'⟩)
       · cases h
 
-/-- … or goes on with a parser that is still not set up, `--config_path` now registered -/
-theorem cfgPhase_new_go (env : Env) (spec : Spec) (hf : spec.cfgFiles = []) (argv : List Str) (q : PState)
+/-- … or goes on with a parser that is still not set up (constructor files applied, `--config_path` registered) -/
+theorem cfgPhase_new_go (env : Env) (spec : Spec) (hok : spec.cfgFiles = [] ∨ spec.cfgPath = false)
+    (argv : List Str) (q : PState)
     (rest : List Str) (h : cfgPhase env (newP spec) argv = .go q rest) :
-    q = basePre q ∧ q.preDone = false ∧ (q.spec.cfgPath = false → q.cfgDefault = none ∧ q.fileDefs = []) := by
-  unfold cfgPhase at h
+    q = basePre q ∧ q.preDone = false ∧ (q.spec.cfgPath = false → q.cfgDefault = none) := by
   cases hcp : spec.cfgPath
-  · simp only [newP, hf, loadFiles, hcp, Bool.not_false, ↓reduceIte] at h
-    injection h with h _; subst h
-    exact ⟨rfl, rfl, fun _ => ⟨rfl, rfl⟩⟩
-  · simp only [newP, hf, loadFiles, hcp, List.isEmpty_nil, Bool.not_true, Bool.false_eq_true, ↓reduceIte] at h
+  · unfold cfgPhase at h
+    cases hl : loadFiles env (loadCtx (newP spec)) (newP spec).fileDefs (newP spec).stray (newP spec).spec.cfgFiles with
+    | foreign => rw [hl] at h; cases h
+    | missing d st => rw [hl] at h; cases h
+    | ok d st =>
+      rw [hl] at h
+      simp only [newP, hcp, Bool.not_false, ↓reduceIte] at h
+      injection h with h _; subst h
+      exact ⟨rfl, rfl, fun _ => rfl⟩
+  · have hf : spec.cfgFiles = [] := by
+      rcases hok with h' | h'
+      · exact h'
+      · rw [hcp] at h'; cases h'
+    unfold cfgPhase at h
+    simp only [newP, hf, loadFiles, hcp, List.isEmpty_nil, Bool.not_true, Bool.false_eq_true, ↓reduceIte] at h
     have vac : ∀ {P : Prop}, spec.cfgPath = false → P := fun h' => by rw [hcp] at h'; cases h'
     split at h
     · cases h
@@ -364,15 +492,15 @@ theorem cfgPhase_new_go (env : Env) (spec : Spec) (hf : spec.cfgFiles = []) (arg
         exact ⟨rfl, rfl, fun hc' => vac hc'⟩
 
 /-- a parse on a pristine parser keeps the invariant -/
-theorem parseP_new_inv (env : Env) (spec : Spec) (hf : spec.cfgFiles = []) (known : Bool) (argv : List Str) :
-    InvP (parseP env (newP spec) known argv).1 := by
-  unfold parseP
+theorem parseP_new_inv (env : Env) (spec : Spec) (hok : spec.cfgFiles = [] ∨ spec.cfgPath = false) (known : Bool)
+    (argv : List Str) : InvP (parseOwn env (newP spec) known argv).1 := by
+  unfold parseOwn
   have hb : (newP spec).broken = false := rfl
   simp only [hb, Bool.false_eq_true, ↓reduceIte]
   split
-  · rename_i q o heq; exact cfgPhase_new_stop env spec hf argv q o heq
+  · rename_i q o heq; exact cfgPhase_new_stop env spec hok argv q o heq
   · rename_i q rest heq
-    obtain ⟨h1, h2, h3⟩ := cfgPhase_new_go env spec hf argv q rest heq
+    obtain ⟨h1, h2, h3⟩ := cfgPhase_new_go env spec hok argv q rest heq
     exact finishP_base_inv env q known rest h1 h2 h3
 
 
@@ -382,62 +510,93 @@ theorem addP_inv (p : PState) (r : Reg) (h : InvP p) : InvP (addP p r).1 := by
   unfold addP
   split
   · exact Or.inr (Or.inl rfl)
-  · rcases h with h | h | ⟨h, hconj⟩
-    · left; split <;> exact h
-    · right; left; split <;> exact h
-    · rcases h with ⟨h1, h2⟩ | ⟨h1, h2, h3⟩
-      · right; right
-        simp only [h1, Bool.false_eq_true, ↓reduceIte]
-        refine ⟨Or.inl ⟨by first | exact h1 | rfl, ?_⟩, hconj⟩
-        obtain ⟨q, rfl⟩ : ∃ q, p = basePre q := ⟨p, h2⟩
-        rfl
-      · right; right
-        simp only [h1, ↓reduceIte]
-        refine ⟨Or.inr ⟨by first | exact h1 | rfl, h2, ?_⟩, hconj⟩
-        show p.frozen.map (·.reg) ++ (p.late ++ [r]) = p.spec.regs ++ [r]
-        rw [← List.append_assoc, h3]
-
-theorem helpP_inv (env : Env) (p : PState) (h : InvP p) : InvP (helpP env p).1 := by
-  by_cases hf : p.spec.cfgFiles = []
-  · rcases h with h | h | ⟨h, hconj⟩
-    · exact absurd hf h
-    · unfold helpP; simp only [h, ↓reduceIte]; exact Or.inr (Or.inl h)
-    · cases hb : p.broken
+  · split
+    · exact Or.inr (Or.inl rfl)
+    · rcases h with h | h | ⟨h, hconj⟩
+      · left; split <;> exact h
+      · right; left; split <;> exact h
       · rcases h with ⟨h1, h2⟩ | ⟨h1, h2, h3⟩
-        · obtain ⟨q0, rfl⟩ : ∃ q0, p = basePre q0 := ⟨p, h2⟩
-          unfold helpP
-          simp only [hb, hf, h1, loadFiles, Bool.false_eq_true, ↓reduceIte]
+        · right; right
+          simp only [h1, Bool.false_eq_true, ↓reduceIte]
+          refine ⟨Or.inl ⟨by first | exact h1 | rfl, ?_⟩, hconj⟩
+          obtain ⟨q, rfl⟩ : ∃ q, p = basePre q := ⟨p, h2⟩
+          rfl
+        · right; right
+          simp only [h1, ↓reduceIte]
+          refine ⟨Or.inr ⟨by first | exact h1 | rfl, h2, ?_⟩, hconj⟩
+          show p.frozen.map (·.reg) ++ (p.late ++ [r]) = p.spec.regs ++ [r]
+          rw [← List.append_assoc, h3]
+
+theorem helpP_inv (env : Env) (p : PState) (h : InvP p) : InvP (helpOwn env p).1 := by
+  rcases h with h | h | ⟨h, hconj⟩
+  · left; rw [helpP_spec]; exact h
+  · unfold helpOwn; simp only [h, ↓reduceIte]; exact Or.inr (Or.inl h)
+  · cases hb : p.broken
+    · rcases h with ⟨h1, h2⟩ | ⟨h1, h2, h3⟩
+      · obtain ⟨q0, rfl⟩ : ∃ q0, p = basePre q0 := ⟨p, h2⟩
+        unfold helpOwn
+        simp only [hb, h1, Bool.false_eq_true, ↓reduceIte]
+        cases hl : loadFiles env (loadCtx (basePre q0)) (basePre q0).fileDefs (basePre q0).stray
+            (basePre q0).spec.cfgFiles with
+        | foreign => exact Or.inr (Or.inl rfl)
+        | missing d st => exact Or.inr (Or.inr ⟨Or.inl ⟨rfl, rfl⟩, hconj⟩)
+        | ok d st =>
+          dsimp only
+          unfold helpCore
           split
           · rename_i q o heq
-            rcases preprocess_base_stop env (basePre q0) [] q o h1 heq with e | e
-            · subst e; exact Or.inr (Or.inr ⟨Or.inl ⟨h1, h2⟩, hconj⟩)
+            rcases preprocess_base_stop env { basePre q0 with fileDefs := d, stray := st } [] q o rfl heq with e | e
+            · subst e; exact Or.inr (Or.inr ⟨Or.inl ⟨rfl, rfl⟩, hconj⟩)
             · subst e; exact Or.inr (Or.inl rfl)
           · rename_i q heq
-            have key := preprocess_base_ok env (basePre q0) [] q h2 h1 heq
+            have key := preprocess_base_ok env { basePre q0 with fileDefs := d, stray := st } [] q rfl rfl heq
             refine Or.inr (Or.inr ⟨key.2.2.1, fun hc => ?_⟩)
-            obtain ⟨e1, e2⟩ := hconj (by rw [← key.2.2.2.1]; exact hc)
-            exact ⟨key.2.2.2.2.1.trans e1, key.2.2.2.2.2.trans e2⟩
-        · unfold helpP
-          simp only [hb, h1, Bool.false_eq_true, ↓reduceIte]
-          exact Or.inr (Or.inr ⟨Or.inr ⟨h1, h2, h3⟩, hconj⟩)
-      · unfold helpP; simp only [hb, ↓reduceIte]; exact Or.inr (Or.inl hb)
-  · left; rw [helpP_spec]; exact hf
+            exact key.2.2.2.2.1.trans (hconj (by rw [← key.2.2.2.1]; exact hc))
+      · unfold helpOwn
+        simp only [hb, h1, Bool.false_eq_true, ↓reduceIte]
+        exact Or.inr (Or.inr ⟨Or.inr ⟨h1, h2, h3⟩, hconj⟩)
+    · unfold helpOwn; simp only [hb, ↓reduceIte]; exact Or.inr (Or.inl hb)
 
-/-- what a parse does on a set-up parser without `--config_path` -/
-theorem parseP_done_plain (env : Env) (p : PState) (known : Bool) (argv : List Str)
-    (hf : p.spec.cfgFiles = []) (hc : p.spec.cfgPath = false) (hb : p.broken = false) (hpre : p.preDone = true) :
-    (parseP env p known argv).2 = finishOut env p.table p.frozen p.late p.fileDefs known argv ∧
-      ((parseP env p known argv).1 = p ∨ (parseP env p known argv).1 = { p with broken := true }) := by
-  unfold parseP
+/-- what a parse does on a set-up parser whose prologue changes nothing -/
+theorem parseP_done_go (env : Env) (p : PState) (known : Bool) (argv : List Str)
+    (hgo : cfgPhase env p argv = .go p argv) (hb : p.broken = false) (hpre : p.preDone = true) :
+    (parseOwn env p known argv).2 = finishOut env p.table p.frozen p.late p.fileDefs p.stray known argv ∧
+      ((parseOwn env p known argv).1 = p ∨ (parseOwn env p known argv).1 = { p with broken := true }) := by
+  unfold parseOwn
   rw [if_neg (by rw [hb]; decide)]
-  rw [cfgPhase_plain hf hc argv]
+  rw [hgo]
   dsimp only
-  unfold finishP
+  unfold finishOwn finishCore
   rw [preprocess_done hpre]
   dsimp only
-  generalize finishOut env p.table p.frozen p.late p.fileDefs known argv = o
+  generalize finishOut env p.table p.frozen p.late p.fileDefs p.stray known argv = o
   cases o
   all_goals first | exact ⟨rfl, Or.inl rfl⟩ | exact ⟨rfl, Or.inr rfl⟩
+
+/-- what a parse does on a set-up parser without `--config_path` and without constructor files -/
+theorem parseP_done_plain (env : Env) (p : PState) (known : Bool) (argv : List Str)
+    (hf : p.spec.cfgFiles = []) (hc : p.spec.cfgPath = false) (hb : p.broken = false) (hpre : p.preDone = true) :
+    (parseOwn env p known argv).2 = finishOut env p.table p.frozen p.late p.fileDefs p.stray known argv ∧
+      ((parseOwn env p known argv).1 = p ∨ (parseOwn env p known argv).1 = { p with broken := true }) :=
+  parseP_done_go env p known argv (cfgPhase_plain hf hc argv) hb hpre
+
+/-- re-applying the constructor files to a parser on which that changes nothing -/
+theorem cfgPhase_reload (env : Env) (p : PState) (argv : List Str) (hc : p.spec.cfgPath = false)
+    (hre : loadFiles env (loadCtx p) p.fileDefs p.stray p.spec.cfgFiles = .ok p.fileDefs p.stray) :
+    cfgPhase env p argv = .go p argv := by
+  unfold cfgPhase
+  rw [hre]
+  simp [hc]
+
+/-- the prologue of a pristine parser with constructor files that load -/
+theorem cfgPhase_new_load (env : Env) (spec : Spec) (argv : List Str) (d : FileC) (st : List (Str × Val))
+    (hc : spec.cfgPath = false)
+    (hl : loadFiles env (loadCtx (newP spec)) [] [] spec.cfgFiles = .ok d st) :
+    cfgPhase env (newP spec) argv = .go { newP spec with fileDefs := d, stray := st } argv := by
+  unfold cfgPhase
+  have : loadFiles env (loadCtx (newP spec)) (newP spec).fileDefs (newP spec).stray (newP spec).spec.cfgFiles = .ok d st := hl
+  rw [this]
+  simp [newP, hc]
 
 /-- the prologue on a set-up `--config_path` parser whose argv names no file: only the shown default changes -/
 theorem cfgPhase_reuse (env : Env) (p : PState) (argv : List Str) (sc : Scan) (d : Val)
@@ -468,9 +627,9 @@ theorem cfgPhase_scan_err (env : Env) (p : PState) (argv : List Str) (o : Out)
 theorem parseP_scan_err (env : Env) (p : PState) (known : Bool) (argv : List Str) (o : Out)
     (hf : p.spec.cfgFiles = []) (hc : p.spec.cfgPath = true) (hb : p.broken = false)
     (hs : cfgScan env true argv = .error o) :
-    (parseP env p known argv).2 = o ∧
-      ((parseP env p known argv).1 = p ∨ (parseP env p known argv).1 = { p with broken := true }) := by
-  unfold parseP
+    (parseOwn env p known argv).2 = o ∧
+      ((parseOwn env p known argv).1 = p ∨ (parseOwn env p known argv).1 = { p with broken := true }) := by
+  unfold parseOwn
   simp only [hb, Bool.false_eq_true, ↓reduceIte]
   rw [cfgPhase_scan_err env p argv o hf hc hs]
   dsimp only
@@ -481,112 +640,162 @@ theorem parseP_scan_err (env : Env) (p : PState) (known : Bool) (argv : List Str
 theorem parseP_done_cfg (env : Env) (p : PState) (known : Bool) (argv : List Str) (sc : Scan) (d : Val)
     (hf : p.spec.cfgFiles = []) (hc : p.spec.cfgPath = true) (hb : p.broken = false) (hpre : p.preDone = true)
     (hd : p.cfgDefault = some d) (hs : cfgScan env true argv = .ok sc) (hn : sc.names = []) :
-    (parseP env p known argv).2 =
-        finishOut env (setCfgDefault sc.v p.table) p.frozen p.late p.fileDefs known sc.rest ∧
-      ((parseP env p known argv).1 = { p with cfgDefault := some sc.v, table := setCfgDefault sc.v p.table } ∨
-       (parseP env p known argv).1 =
+    (parseOwn env p known argv).2 =
+        finishOut env (setCfgDefault sc.v p.table) p.frozen p.late p.fileDefs p.stray known sc.rest ∧
+      ((parseOwn env p known argv).1 = { p with cfgDefault := some sc.v, table := setCfgDefault sc.v p.table } ∨
+       (parseOwn env p known argv).1 =
           { p with cfgDefault := some sc.v, table := setCfgDefault sc.v p.table, broken := true }) := by
-  unfold parseP
+  unfold parseOwn
   rw [if_neg (by rw [hb]; decide)]
   rw [cfgPhase_reuse env p argv sc d hf hc hd hs hn]
   dsimp only
-  unfold finishP
+  unfold finishOwn finishCore
   rw [preprocess_done (p := { p with cfgDefault := some sc.v, table := setCfgDefault sc.v p.table }) hpre]
   dsimp only
-  generalize finishOut env (setCfgDefault sc.v p.table) p.frozen p.late p.fileDefs known sc.rest = o
+  generalize finishOut env (setCfgDefault sc.v p.table) p.frozen p.late p.fileDefs p.stray known sc.rest = o
   cases o
   all_goals first | exact ⟨rfl, Or.inl rfl⟩ | exact ⟨rfl, Or.inr rfl⟩
 
-/-- the fresh answer, computed: scan, resolve the subgroups, build the table of the parser's own settings, run -/
+/-- the fresh answer, computed: apply the constructor files, resolve the subgroups, build the table of the parser's
+    own settings, run -/
+theorem fresh_load (env : Env) (spec : Spec) (known : Bool) (argv : List Str) (fregs : List FReg) (tbl : List Act)
+    (d : FileC) (st : List (Str × Val)) (hc : spec.cfgPath = false)
+    (hl : loadFiles env (loadCtx (newP spec)) [] [] spec.cfgFiles = .ok d st)
+    (hch : chooseAll env spec.cfg spec.regs argv = .ok fregs)
+    (htbl : tableFor spec.cfg d [helpAct] fregs = some tbl) :
+    freshOwn env spec known argv = finishOut env tbl fregs [] d st known argv := by
+  unfold freshOwn parseOwn
+  have hb' : (newP spec).broken = false := rfl
+  simp only [hb', Bool.false_eq_true, ↓reduceIte]
+  rw [cfgPhase_new_load env spec argv d st hc hl]
+  dsimp only
+  unfold finishOwn finishCore
+  have : preOwn env { newP spec with fileDefs := d, stray := st } argv =
+      .ok { newP spec with fileDefs := d, stray := st, preDone := true, table := tbl, frozen := fregs } := by
+    unfold preOwn preprocessAt
+    simp only [newP, Bool.false_eq_true, ↓reduceIte, hch, htbl]
+  rw [this]
+  dsimp only [newP]
+  generalize finishOut env tbl fregs [] d st known argv = o
+  cases o <;> rfl
+
 theorem fresh_plain (env : Env) (spec : Spec) (known : Bool) (argv : List Str) (fregs : List FReg) (tbl : List Act)
     (hf : spec.cfgFiles = []) (hc : spec.cfgPath = false)
     (hch : chooseAll env spec.cfg spec.regs argv = .ok fregs)
     (htbl : tableFor spec.cfg [] [helpAct] fregs = some tbl) :
-    fresh env spec known argv = finishOut env tbl fregs [] [] known argv := by
-  unfold fresh parseP
-  have hb' : (newP spec).broken = false := rfl
-  simp only [hb', Bool.false_eq_true, ↓reduceIte]
-  rw [cfgPhase_plain (p := newP spec) hf hc argv]
-  dsimp only
-  unfold finishP
-  have : preprocess env (newP spec) argv =
-      .ok { newP spec with preDone := true, table := tbl, frozen := fregs } := by
-    unfold preprocess
-    simp only [newP, Bool.false_eq_true, ↓reduceIte, hch, htbl]
-  rw [this]
-  dsimp only [newP]
-  generalize finishOut env tbl fregs [] [] known argv = o
-  cases o <;> rfl
+    freshOwn env spec known argv = finishOut env tbl fregs [] [] [] known argv :=
+  fresh_load env spec known argv fregs tbl [] [] hc (by rw [hf]; rfl) hch htbl
 
 theorem fresh_cfg (env : Env) (spec : Spec) (known : Bool) (argv : List Str) (sc : Scan) (fregs : List FReg)
     (tbl : List Act) (hf : spec.cfgFiles = []) (hc : spec.cfgPath = true)
     (hs : cfgScan env true argv = .ok sc) (hn : sc.names = [])
     (hch : chooseAll env spec.cfg spec.regs sc.rest = .ok fregs)
     (htbl : tableFor spec.cfg [] [helpAct, cfgAct sc.v] fregs = some tbl) :
-    fresh env spec known argv = finishOut env tbl fregs [] [] known sc.rest := by
-  unfold fresh parseP
+    freshOwn env spec known argv = finishOut env tbl fregs [] [] [] known sc.rest := by
+  unfold freshOwn parseOwn
   have hb' : (newP spec).broken = false := rfl
   simp only [hb', Bool.false_eq_true, ↓reduceIte]
   rw [cfgPhase_new_reg env spec argv sc hf hc hs hn]
   dsimp only
-  unfold finishP
-  have : preprocess env { newP spec with cfgDefault := some sc.v, table := [helpAct, cfgAct sc.v] } sc.rest =
+  unfold finishOwn finishCore
+  have : preOwn env { newP spec with cfgDefault := some sc.v, table := [helpAct, cfgAct sc.v] } sc.rest =
       .ok { newP spec with cfgDefault := some sc.v, preDone := true, table := tbl, frozen := fregs } := by
-    unfold preprocess
+    unfold preOwn preprocessAt
     simp only [newP, Bool.false_eq_true, ↓reduceIte, hch, htbl]
   rw [this]
   dsimp only [newP]
-  generalize finishOut env tbl fregs [] [] known sc.rest = o
+  generalize finishOut env tbl fregs [] [] [] known sc.rest = o
   cases o <;> rfl
+
+/-- the three facts `d10Safe` carries -/
+theorem d10_facts {env : Env} {p : PState} {argv : List Str} (h10 : d10Safe env p argv = true) :
+    p.fileDefs = [] ∧ p.stray = [] := by
+  simp only [d10Safe, Bool.and_eq_true, decide_eq_true_eq] at h10
+  exact ⟨h10.1.1, h10.1.2⟩
 
 /-- what the safety clauses say about a parser (without constructor files) that is not set up: it is pristine -/
 theorem pristine_of_safe {env : Env} {p : PState} {argv : List Str}
     (hpre : p.preDone = false) (hb : p = basePre p)
-    (hconj : p.spec.cfgPath = false → p.cfgDefault = none ∧ p.fileDefs = [])
+    (hconj : p.spec.cfgPath = false → p.cfgDefault = none)
     (h10 : d10Safe env p argv = true) (hset : cfgSetupSafe p = true) : p = newP p.spec := by
-  have hdefs : p.fileDefs = [] := by
-    simp only [d10Safe, Bool.and_eq_true, decide_eq_true_eq] at h10
-    exact h10.1
+  obtain ⟨hdefs, hstray⟩ := d10_facts h10
   have hnone : p.cfgDefault = none := by
     cases hc : p.spec.cfgPath
-    · exact (hconj hc).1
+    · exact hconj hc
     · simp only [cfgSetupSafe, hc, hpre, Bool.not_true, Bool.false_or, beq_iff_eq] at hset
       cases hd : p.cfgDefault
       · rfl
       · rw [hd] at hset; cases hset
   calc p = basePre p := hb
-    _ = newP p.spec := by unfold basePre newP; simp [hnone, hdefs, preTbl]
+    _ = newP p.spec := by unfold basePre newP; simp [hnone, hdefs, hstray, preTbl]
 
 theorem scan_plain (env : Env) (argv : List Str) :
     cfgScan env false argv = .ok { rest := argv, v := .sc .none, names := [] } := rfl
 
+/-- unpack `safeState` for a parser without constructor files -/
+theorem safeState_facts {env : Env} {p : PState} {argv : List Str} (hf : p.spec.cfgFiles = [])
+    (hst : safeState env p argv = true) :
+    p.broken = false ∧ d10Safe env p argv = true ∧ cfgSetupSafe p = true := by
+  simp only [safeState, hf, List.isEmpty_nil, ↓reduceIte, Bool.and_eq_true, Bool.not_eq_eq_eq_not, Bool.not_true] at hst
+  exact ⟨hst.1, hst.2.1, hst.2.2⟩
+
+/-- unpack `safeState` for a parser with constructor files -/
+theorem ctor_facts {env : Env} {p : PState} {argv : List Str} (hfe : p.spec.cfgFiles.isEmpty = false)
+    (hst : safeState env p argv = true) :
+    p.broken = false ∧ p.spec.cfgPath = false ∧
+      (p = newP p.spec ∨
+        (p.preDone = true ∧
+          loadFiles env (loadCtx p) p.fileDefs p.stray p.spec.cfgFiles = .ok p.fileDefs p.stray ∧
+          loadFiles env (loadCtx (newP p.spec)) [] [] p.spec.cfgFiles = .ok p.fileDefs p.stray)) := by
+  simp only [safeState, hfe, Bool.false_eq_true, ↓reduceIte, Bool.and_eq_true, Bool.or_eq_true, decide_eq_true_eq,
+    Bool.not_eq_eq_eq_not, Bool.not_true, ctorReloadSafe] at hst
+  refine ⟨hst.1, hst.2.1, ?_⟩
+  rcases hst.2.2 with h | h
+  · exact Or.inl h
+  · exact Or.inr ⟨h.1, h.2.1, h.2.2⟩
+
 theorem parseP_agrees (env : Env) (p : PState) (known : Bool) (argv : List Str)
-    (hs : safeParse env p argv = true) (h : InvP p) :
-    (parseP env p known argv).2 = fresh env p.spec known argv := by
-  simp only [safeParse, Bool.and_eq_true, Bool.not_eq_eq_eq_not, Bool.not_true] at hs
-  obtain ⟨hb, hs⟩ := hs
+    (hst : safeState env p argv = true) (han : safeAnswer env p argv = true) (h : InvP p) :
+    (parseOwn env p known argv).2 = freshOwn env p.spec known argv := by
+  simp only [safeAnswer, Bool.and_eq_true] at han
+  obtain ⟨h9, hl⟩ := han
   cases hfe : p.spec.cfgFiles.isEmpty
-  · -- constructor files: only the pristine state is covered
-    simp only [hfe, Bool.false_eq_true, ↓reduceIte, decide_eq_true_eq] at hs
-    unfold fresh
-    rw [← hs]
+  · -- constructor `config_path=` files, no `--config_path` argument
+    obtain ⟨hb, hc, hcase⟩ := ctor_facts hfe hst
+    rcases hcase with hp | ⟨h1, hre1, hre2⟩
+    · unfold freshOwn
+      rw [← hp]
+    · rcases h with h | h | ⟨h, hconj⟩
+      · rw [hc] at h; cases h.2
+      · rw [hb] at h; cases h
+      · rcases h with ⟨h0, _⟩ | ⟨_, h2, _⟩
+        · rw [h1] at h0; cases h0
+        · have hlate : p.late = [] := by simpa [lateSafe] using hl
+          rw [hconj hc] at h2
+          have hch : chooseAll env p.spec.cfg p.spec.regs argv = .ok p.frozen := by
+            simp only [d9Safe, h1, Bool.not_true, Bool.false_or, hc, scan_plain] at h9
+            split at h9
+            · rename_i fregs heq
+              rw [heq]
+              have : fregs = p.frozen := by simpa using h9
+              rw [this]
+            · cases h9
+          rw [(parseP_done_go env p known argv (cfgPhase_reload env p argv hc hre1) hb h1).1,
+              fresh_load env p.spec known argv p.frozen p.table p.fileDefs p.stray hc hre2 hch h2, hlate]
   · have hf : p.spec.cfgFiles = [] := List.isEmpty_iff.mp hfe
-    simp only [hfe, ↓reduceIte, Bool.and_eq_true] at hs
-    obtain ⟨⟨⟨h9, h10⟩, hl⟩, hset⟩ := hs
+    obtain ⟨hb, h10, hset⟩ := safeState_facts hf hst
     rcases h with h | h | ⟨h, hconj⟩
-    · exact absurd hf h
+    · exact absurd hf h.1
     · rw [hb] at h; cases h
     · rcases h with ⟨h1, h2⟩ | ⟨h1, h2, _⟩
       · have hp := pristine_of_safe h1 h2 hconj h10 hset
-        unfold fresh
+        unfold freshOwn
         rw [← hp]
       · have hlate : p.late = [] := by simpa [lateSafe] using hl
-        have hdefs : p.fileDefs = [] := by
-          simp only [d10Safe, Bool.and_eq_true, decide_eq_true_eq] at h10
-          exact h10.1
+        obtain ⟨hdefs, hstray⟩ := d10_facts h10
         cases hc : p.spec.cfgPath
         · -- no --config_path
-          obtain ⟨hnone, _⟩ := hconj hc
+          have hnone := hconj hc
           rw [hdefs, hnone] at h2
           have hch : chooseAll env p.spec.cfg p.spec.regs argv = .ok p.frozen := by
             simp only [d9Safe, h1, Bool.not_true, Bool.false_or, hc, scan_plain] at h9
@@ -597,7 +806,7 @@ theorem parseP_agrees (env : Env) (p : PState) (known : Bool) (argv : List Str)
               rw [this]
             · cases h9
           rw [(parseP_done_plain env p known argv hf hc hb h1).1,
-              fresh_plain env p.spec known argv p.frozen p.table hf hc hch h2, hlate, hdefs]
+              fresh_plain env p.spec known argv p.frozen p.table hf hc hch h2, hlate, hdefs, hstray]
         · -- --config_path parser, set up by an earlier parse
           have hsome : p.cfgDefault.isSome = true := by
             simpa [cfgSetupSafe, hc, h1] using hset
@@ -605,7 +814,7 @@ theorem parseP_agrees (env : Env) (p : PState) (known : Bool) (argv : List Str)
           cases hsc : cfgScan env true argv with
           | error o =>
             rw [(parseP_scan_err env p known argv o hf hc hb hsc).1]
-            unfold fresh
+            unfold freshOwn
             rw [(parseP_scan_err env (newP p.spec) known argv o hf hc rfl hsc).1]
           | ok sc =>
             have hn : sc.names = [] := by
@@ -622,29 +831,32 @@ theorem parseP_agrees (env : Env) (p : PState) (known : Bool) (argv : List Str)
             rw [hdefs, hd] at h2
             obtain ⟨acts, htab, htbl⟩ := tableFor_cfgDefault d sc.v h2
             rw [(parseP_done_cfg env p known argv sc d hf hc hb h1 hd hsc hn).1,
-                fresh_cfg env p.spec known argv sc p.frozen _ hf hc hsc hn hch htbl, hlate, hdefs, htab,
+                fresh_cfg env p.spec known argv sc p.frozen _ hf hc hsc hn hch htbl, hlate, hdefs, hstray, htab,
                 setCfgDefault_pre]
 
+/-- a state-keeping parse keeps the invariant — whatever THIS call's answer is worth (D9 / late add included) -/
 theorem parseP_inv (env : Env) (p : PState) (known : Bool) (argv : List Str)
-    (hs : safeParse env p argv = true) (h : InvP p) : InvP (parseP env p known argv).1 := by
-  simp only [safeParse, Bool.and_eq_true, Bool.not_eq_eq_eq_not, Bool.not_true] at hs
-  obtain ⟨hb, hs⟩ := hs
+    (hst : safeState env p argv = true) (h : InvP p) : InvP (parseOwn env p known argv).1 := by
   cases hfe : p.spec.cfgFiles.isEmpty
-  · left
-    rw [parseP_spec]
-    intro hnil
-    rw [hnil] at hfe
-    cases hfe
+  · obtain ⟨hb, hc, hcase⟩ := ctor_facts hfe hst
+    rcases hcase with hp | ⟨h1, hre1, _⟩
+    · rw [hp]
+      exact parseP_new_inv env p.spec (Or.inr hc) known argv
+    · rcases h with h | h | ⟨h, hconj⟩
+      · rw [hc] at h; cases h.2
+      · rw [hb] at h; cases h
+      · rcases (parseP_done_go env p known argv (cfgPhase_reload env p argv hc hre1) hb h1).2 with e | e
+        · rw [e]; exact Or.inr (Or.inr ⟨h, hconj⟩)
+        · rw [e]; exact Or.inr (Or.inl rfl)
   · have hf : p.spec.cfgFiles = [] := List.isEmpty_iff.mp hfe
-    simp only [hfe, ↓reduceIte, Bool.and_eq_true] at hs
-    obtain ⟨⟨⟨_, h10⟩, _⟩, hset⟩ := hs
+    obtain ⟨hb, h10, hset⟩ := safeState_facts hf hst
     rcases h with h | h | ⟨h, hconj⟩
-    · exact absurd hf h
+    · exact absurd hf h.1
     · rw [hb] at h; cases h
     · rcases h with ⟨h1, h2⟩ | ⟨h1, h2, h3⟩
       · have hp := pristine_of_safe h1 h2 hconj h10 hset
         rw [hp]
-        exact parseP_new_inv env p.spec hf known argv
+        exact parseP_new_inv env p.spec (Or.inl hf) known argv
       · cases hc : p.spec.cfgPath
         · rcases (parseP_done_plain env p known argv hf hc hb h1).2 with e | e
           · rw [e]; exact Or.inr (Or.inr ⟨Or.inr ⟨h1, h2, h3⟩, hconj⟩)
@@ -672,7 +884,6 @@ theorem parseP_inv (env : Env) (p : PState) (known : Bool) (argv : List Str)
               · exact absurd (show p.spec.cfgPath = false from hc') (by rw [hc]; decide)
             · rw [e]; exact Or.inr (Or.inl rfl)
 
-
 /-! ### lifting to the pool and to all histories -/
 
 theorem setPool_same (pool : Nat → Option PState) (i : Nat) (p : PState) : setPool pool i p i = some p := by
@@ -682,8 +893,8 @@ theorem setPool_other (pool : Nat → Option PState) {i j : Nat} (p : PState) (h
     setPool pool i p j = pool j := by
   simp [setPool, h]
 
-/-- one call keeps the pool invariant (an unsafe call only taints the parser it was made on) -/
-theorem step_inv (env : Env) (s : State) (t : Nat → Bool) (op : Op) (h : InvT s t) :
+/-- one call keeps the pool invariant (a call that does not keep the state only taints the parser it was made on) -/
+theorem step_inv (env : Env) (hr : env.reassert = true) (s : State) (t : Nat → Bool) (op : Op) (h : InvT s t) :
     InvT (step env s op).1 (taintStep env s t op) := by
   intro j q hq ht
   cases op with
@@ -694,13 +905,13 @@ theorem step_inv (env : Env) (s : State) (t : Nat → Bool) (op : Op) (h : InvT 
       rw [setPool_same] at hq
       injection hq with hq
       subst hq
-      exact Or.inr (Or.inr ⟨Or.inl ⟨rfl, rfl⟩, fun _ => ⟨rfl, rfl⟩⟩)
+      exact Or.inr (Or.inr ⟨Or.inl ⟨rfl, rfl⟩, fun _ => rfl⟩)
     · rw [setPool_other _ _ hji] at hq
       simp only [taintStep, hji, ↓reduceIte] at ht
       exact h j q hq ht
   | add i r =>
     simp only [step] at hq
-    simp only [taintStep, safe, ↓reduceIte] at ht
+    simp only [taintStep, keeps, ↓reduceIte] at ht
     cases hp : s.pool i with
     | none => simp only [hp] at hq; exact h j q hq ht
     | some p =>
@@ -718,7 +929,7 @@ theorem step_inv (env : Env) (s : State) (t : Nat → Bool) (op : Op) (h : InvT 
     cases hp : s.pool i with
     | none =>
       simp only [hp] at hq
-      simp only [taintStep, safe, hp, ↓reduceIte] at ht
+      simp only [taintStep, keeps, hp, ↓reduceIte] at ht
       exact h j q hq ht
     | some p =>
       simp only [hp] at hq
@@ -727,11 +938,12 @@ theorem step_inv (env : Env) (s : State) (t : Nat → Bool) (op : Op) (h : InvT 
         rw [setPool_same] at hq
         injection hq with hq
         subst hq
-        cases hsafe : safeParse env p argv with
-        | false => simp [taintStep, safe, hp, hsafe, Op.idx] at ht
+        cases hkeep : safeState env p argv with
+        | false => simp [taintStep, keeps, hp, hkeep, Op.idx] at ht
         | true =>
-          simp only [taintStep, safe, hp, hsafe, ↓reduceIte] at ht
-          exact parseP_inv env p known argv hsafe (h j p hp ht)
+          simp only [taintStep, keeps, hp, hkeep, ↓reduceIte] at ht
+          rw [(parseP_own env hr s.G p known argv).1]
+          exact parseP_inv env p known argv hkeep (h j p hp ht)
       · rw [setPool_other _ _ hji] at hq
         have ht' : t j = false := by
           simp only [taintStep] at ht
@@ -741,7 +953,7 @@ theorem step_inv (env : Env) (s : State) (t : Nat → Bool) (op : Op) (h : InvT 
         exact h j q hq ht'
   | printHelp i =>
     simp only [step] at hq
-    simp only [taintStep, safe, ↓reduceIte] at ht
+    simp only [taintStep, keeps, ↓reduceIte] at ht
     cases hp : s.pool i with
     | none => simp only [hp] at hq; exact h j q hq ht
     | some p =>
@@ -751,75 +963,95 @@ theorem step_inv (env : Env) (s : State) (t : Nat → Bool) (op : Op) (h : InvT 
         rw [setPool_same] at hq
         injection hq with hq
         subst hq
+        rw [helpP_own env hr s.G p]
         exact helpP_inv env p (h j p hp ht)
       · rw [setPool_other _ _ hji] at hq
         exact h j q hq ht
   | formatHelp i =>
-    simp only [taintStep, safe, ↓reduceIte] at ht
+    simp only [taintStep, keeps, ↓reduceIte] at ht
     simp only [step] at hq
     cases hp : s.pool i with
     | none => simp only [hp] at hq; exact h j q hq ht
     | some p => simp only [hp] at hq; exact h j q hq ht
 
 /-- one safe call on an untainted parser agrees with the fresh answer -/
-theorem step_agrees (env : Env) (s : State) (t : Nat → Bool) (op : Op) (h : InvT s t)
+theorem step_agrees (env : Env) (hr : env.reassert = true) (s : State) (t : Nat → Bool) (op : Op) (h : InvT s t)
     (hs : safe env s op = true) (ht : t op.idx = false) : agrees env s op (step env s op).2 = true := by
   cases op with
   | parse i known argv =>
     cases hp : s.pool i with
     | none => simp only [agrees, hp]
     | some p =>
-      simp only [safe, hp] at hs
+      simp only [safe, hp, safeParse, Bool.and_eq_true] at hs
       simp only [agrees, step, hp, decide_eq_true_eq]
-      exact parseP_agrees env p known argv hs (h i p hp ht)
+      rw [(parseP_own env hr s.G p known argv).2, fresh_own env hr]
+      exact parseP_agrees env p known argv hs.1 hs.2 (h i p hp ht)
   | construct i cfg cp fs => rfl
   | add i r => rfl
   | printHelp i => rfl
   | formatHelp i => rfl
 
-/-- **C08 (partial)**: in EVERY history, every safe parse call on a parser that only received safe calls since
-    its construction returns exactly what a freshly built, identically configured parser returns. -/
-theorem c08_partial (env : Env) : ∀ (ops : List Op) (s : State) (t : Nat → Bool), InvT s t → Monitored env s t ops
+/-- **C08 (partial)**: in EVERY history, every safe parse call on a parser that only received state-keeping calls
+    since its construction returns exactly what a freshly built, identically configured parser returns — whatever
+    the class attributes are at that moment, i.e. whatever other parsers were constructed or used in between
+    (hypothesis `env.reassert`: the current tree; without it the statement is false, `d5_old_witness`). -/
+theorem c08_partial (env : Env) (hr : env.reassert = true) :
+    ∀ (ops : List Op) (s : State) (t : Nat → Bool), InvT s t → Monitored env s t ops
   | [], _, _, _ => trivial
   | op :: ops, s, t, h =>
-    ⟨fun hs ht => step_agrees env s t op h hs ht, c08_partial env ops _ _ (step_inv env s t op h)⟩
+    ⟨fun hs ht => step_agrees env hr s t op h hs ht, c08_partial env hr ops _ _ (step_inv env hr s t op h)⟩
 
 theorem inv_init : InvT init (fun _ => false) := by
   intro i p hp _
   simp [init] at hp
 
 /-- from process start, for all histories -/
-theorem c08_partial_init (env : Env) (ops : List Op) : Monitored env init (fun _ => false) ops :=
-  c08_partial env ops init _ inv_init
+theorem c08_partial_init (env : Env) (hr : env.reassert = true) (ops : List Op) :
+    Monitored env init (fun _ => false) ops :=
+  c08_partial env hr ops init _ inv_init
 
 /-- every call of the history is safe in the state it is made in -/
 def safeHist (env : Env) : State → List Op → Bool
   | _, [] => true
   | s, op :: ops => safe env s op && safeHist env (step env s op).1 ops
 
+theorem keeps_of_safe {env : Env} {s : State} {op : Op} (hs : safe env s op = true) : keeps env s op = true := by
+  cases op with
+  | parse i known argv =>
+    simp only [safe, keeps] at hs ⊢
+    cases hp : s.pool i with
+    | none => rfl
+    | some p =>
+      simp only [hp, safeParse, Bool.and_eq_true] at hs
+      simp only [hs.1]
+  | construct i cfg cp fs => rfl
+  | add i r => rfl
+  | printHelp i => rfl
+  | formatHelp i => rfl
+
 theorem taintStep_safe {env : Env} {s : State} {op : Op} (hs : safe env s op = true) :
     taintStep env s (fun _ => false) op = fun _ => false := by
+  have hk := keeps_of_safe hs
   cases op <;> simp_all [taintStep]
 
 /-- plain form: a history all of whose calls avoid the named exclusions satisfies the full statement -/
-theorem c08_partial_safeHist (env : Env) : ∀ (ops : List Op) (s : State), InvT s (fun _ => false) →
-    safeHist env s ops = true → allAgree env s ops = true
+theorem c08_partial_safeHist (env : Env) (hr : env.reassert = true) :
+    ∀ (ops : List Op) (s : State), InvT s (fun _ => false) → safeHist env s ops = true → allAgree env s ops = true
   | [], _, _, _ => rfl
   | op :: ops, s, h, hs => by
     simp only [safeHist, Bool.and_eq_true] at hs
     simp only [allAgree, Bool.and_eq_true]
-    refine ⟨step_agrees env s _ op h hs.1 rfl, ?_⟩
-    have := step_inv env s _ op h
+    refine ⟨step_agrees env hr s _ op h hs.1 rfl, ?_⟩
+    have := step_inv env hr s _ op h
     rw [taintStep_safe hs.1] at this
-    exact c08_partial_safeHist env ops _ this hs.2
+    exact c08_partial_safeHist env hr ops _ this hs.2
 
-/-- the process-global settings play no role any more: a parse answers the same whatever they are (D5 repaired) -/
-theorem parse_out_indep_of_globals (env : Env) (G G' : Cfg) (pool : Nat → Option PState) (i : Nat) (known : Bool)
-    (argv : List Str) :
-    (step env { G := G, pool := pool } (.parse i known argv)).2 =
-      (step env { G := G', pool := pool } (.parse i known argv)).2 := by
-  simp only [step]
-  cases pool i <;> rfl
+/-- "construction or use of other parsers with different settings": a parse answers the same whatever the class
+    attributes are when it is made — BECAUSE `_preprocessing` writes the parser's own settings before reading them
+    (`preprocess_fst`); false for the tree before 7b430cf (`d5_old_witness`) -/
+theorem parse_out_indep_of_globals (env : Env) (hr : env.reassert = true) (G G' : Cfg) (p : PState) (known : Bool)
+    (argv : List Str) : (parseP env G p known argv).2.1 = (parseP env G' p known argv).2.1 := by
+  rw [(parseP_own env hr G p known argv).2, (parseP_own env hr G' p known argv).2]
 
 /-! ### witnesses: the full statement is still false on the current code -/
 
@@ -857,7 +1089,14 @@ def clsK : ClassSpec :=
 def env0 : Env :=
   { fenv := [("2.5".toList, some "2.5".toList)],
     files := [("f0.json".toList, some (.rooted [("a".toList, [("a_b".toList, .sc (.int 7))])])),
-              ("r0.json".toList, some (.rootless [("a_b".toList, .sc (.int 13))]))] }
+              ("r0.json".toList, some (.rootless [("a_b".toList, .sc (.int 13))])),
+              ("rs.json".toList, some (.rootless [("k".toList, .sc (.int 5))]))] }
+
+/-- the same world with the tree BEFORE the D5 repair 7b430cf (`_preprocessing` reads whatever the class holds) -/
+def env0Old : Env := { env0 with reassert := false }
+
+/-- `class SK: k: int = 0; mod: X | Y = subgroups(…)` -/
+def clsSK : ClassSpec := { clsS with name := "SK".toList, fields := [fInt "k" 0] }
 
 def mkP (i : Nat) (c : Cfg) (cls : ClassSpec) (dest : String) (cp := false) (fs : List String := []) : List Op :=
   [.construct i c cp (fs.map String.toList), .add i { dest := dest.toList, cls := cls }]
@@ -882,7 +1121,30 @@ def d10HelpHist : List Op :=
 def lateAddHist : List Op :=
   mkP 0 cU clsA "a" ++ [.parse 0 false [], .add 0 { dest := "b".toList, cls := clsB }, .parse 0 false (argvOf ["--lr", "2"])]
 
+/-- D9, the facet with FAILED parses: after `--mod y`, the command line `--yv q --mod z` stops at the bad int on the
+    frozen parser (which knows `--yv`), at the invalid choice on a fresh one — another kind of exit 2.  This is why
+    `d9Safe` also excludes an argv the choice parser rejects. -/
+def d9ErrHist : List Op :=
+  mkP 0 cU clsS "s" ++ [.parse 0 false (argvOf ["--mod", "y"]), .parse 0 false (argvOf ["--yv", "q", "--mod", "z"])]
+/-- … while a rejected choice alone, between two agreeing parses, does no harm at all: `safe` is sufficient, not
+    necessary -/
+def d9RejectedHist : List Op :=
+  mkP 0 cU clsS "s" ++ [.parse 0 false (argvOf ["--mod", "y"]), .parse 0 false (argvOf ["--mod", "z"]),
+    .parse 0 false (argvOf ["--mod", "y"])]
+/-- NEW (round 2): a WITHOUT_ROOT parser with a root-less constructor file over a class with a subgroups field:
+    `set_defaults` tests `len(self._wrappers) == 1` (parsing.py:412) but `_preprocessing` has flattened the child
+    wrapper into `_wrappers`, so from the 2nd call on the file's keys become parser-level defaults: a stray
+    top-level attribute `k` on the namespace -/
+def rootlessHist : List Op := mkP 0 cW clsSK "s" (fs := ["rs.json"]) ++ [.parse 0 false [], .parse 0 false []]
+/-- the same through `--config_path` on the command line -/
+def rootlessArgvHist : List Op :=
+  mkP 0 cW clsSK "s" (cp := true) ++ [.parse 0 false (argvOf ["--config_path", "rs.json"]),
+    .parse 0 false (argvOf ["--config_path", "rs.json"])]
+
 theorem d9_witness : allAgree env0 init d9Hist = false := by decide
+theorem d9_errkind_witness : allAgree env0 init d9ErrHist = false := by decide
+theorem rootless_witness : allAgree env0 init rootlessHist = false := by decide
+theorem rootless_argv_witness : allAgree env0 init rootlessArgvHist = false := by decide
 theorem d9_help_witness : allAgree env0 init d9HelpHist = false := by decide
 theorem d10_witness : allAgree env0 init d10Hist = false := by decide
 theorem d10_later_witness : allAgree env0 init d10LaterHist = false := by decide
@@ -893,13 +1155,22 @@ theorem lateAdd_witness : allAgree env0 init lateAddHist = false := by decide
 example : (runHist env0 init d9Hist).getLast? =
     some (.ok [{ dest := "s".toList, cls := "S".toList, fields := [],
                  sub := some ("mod".toList, "Y".toList, [("yv".toList, .sc (.int 2))]) }]
-              [("s.mod".toList, .sc (.str "x".toList))] none []) := by decide
+              [("s.mod".toList, .sc (.str "x".toList))] none [] []) := by decide
 example : (runHist env0 init d10Hist).getLast? =
     some (.ok [{ dest := "a".toList, cls := "A".toList, fields := [("a_b".toList, .sc (.int 7))], sub := none }]
-              [] (some (.sc .none)) []) := by decide
+              [] (some (.sc .none)) [] []) := by decide
 example : (runHist env0 init d10LaterHist).getLast? =
     some (.ok [{ dest := "a".toList, cls := "A".toList, fields := [("a_b".toList, .sc (.int 1))], sub := none }]
-              [] (some (.list [.path "f0.json".toList])) []) := by decide
+              [] (some (.list [.path "f0.json".toList])) [] []) := by decide
+
+example : (runHist env0 init d9ErrHist).getLast? = some (.exit 2 .type) := by decide
+example : fresh env0 { cfg := cU, cfgPath := false, cfgFiles := [], regs := [{ dest := "s".toList, cls := clsS }] }
+    false (argvOf ["--yv", "q", "--mod", "z"]) = .exit 2 .choice := by decide
+example : allAgree env0 init d9RejectedHist = true ∧ safeHist env0 init d9RejectedHist = false := by decide
+example : (runHist env0 init rootlessHist).getLast? =
+    some (.ok [{ dest := "s".toList, cls := "SK".toList, fields := [("k".toList, .sc (.int 5))],
+                 sub := some ("mod".toList, "X".toList, [("xv".toList, .sc (.int 1))]) }]
+              [("s.mod".toList, .sc (.str "x".toList))] none [] [("k".toList, .sc (.int 5))]) := by decide
 
 /-- **the full statement does not hold for the current code** -/
 theorem c08_full_false : ¬ FullStatement := by
@@ -910,6 +1181,9 @@ theorem c08_full_false : ¬ FullStatement := by
 
 /-- each witness history contains a call that `safe` excludes — the exclusions are where the failures are -/
 example : safeHist env0 init d9Hist = false := by decide
+example : safeHist env0 init d9ErrHist = false := by decide
+example : safeHist env0 init rootlessHist = false := by decide
+example : safeHist env0 init rootlessArgvHist = false := by decide
 example : safeHist env0 init d9HelpHist = false := by decide
 example : safeHist env0 init d10Hist = false := by decide
 example : safeHist env0 init d10LaterHist = false := by decide
@@ -926,7 +1200,7 @@ def d8Hist : List Op :=
 theorem d8_regression : allAgree env0 init d8Hist = true ∧ safeHist env0 init d8Hist = true := by decide
 example : (runHist env0 init d8Hist).getLast? =
     some (.ok [{ dest := "t".toList, cls := "T".toList,
-                 fields := [("tup".toList, .tuple [.int 4, .str "b".toList, .float "2.5".toList])], sub := none }] [] none []) := by
+                 fields := [("tup".toList, .tuple [.int 4, .str "b".toList, .float "2.5".toList])], sub := none }] [] none [] []) := by
   decide
 
 /-- D5 (repaired by 7b430cf): `p0 = ArgumentParser(DASH)`, `p1 = ArgumentParser(UNDERSCORE)`, then
@@ -936,20 +1210,25 @@ def d5Hist : List Op := mkP 0 cD clsA "a" ++ [.construct 1 cU false [], .parse 0
 def d6Hist : List Op := mkP 0 cU clsA "a" (cp := true) ++ [.parse 0 false [], .parse 0 false []]
 
 theorem d5_regression : allAgree env0 init d5Hist = true ∧ safeHist env0 init d5Hist = true := by decide
+/-- … and the SAME history on the tree before the repair violates the statement although every call is `safe`:
+    `c08_partial` really needs `env.reassert`, the clause "keeps generating the option spelling it was configured
+    with" is not true by construction of the model -/
+theorem d5_old_witness : allAgree env0Old init d5Hist = false ∧ safeHist env0Old init d5Hist = true := by decide
+example : (runHist env0Old init d5Hist).getLast? = some (.exit 2 .unrecognized) := by decide
 theorem d6_regression : allAgree env0 init d6Hist = true ∧ safeHist env0 init d6Hist = true := by decide
 
 example : (runHist env0 init d5Hist).getLast? =
-    some (.ok [{ dest := "a".toList, cls := "A".toList, fields := [("a_b".toList, .sc (.int 3))], sub := none }] [] none []) := by
+    some (.ok [{ dest := "a".toList, cls := "A".toList, fields := [("a_b".toList, .sc (.int 3))], sub := none }] [] none [] []) := by
   decide
 example : (runHist env0 init d6Hist).getLast? =
     some (.ok [{ dest := "a".toList, cls := "A".toList, fields := [("a_b".toList, .sc (.int 1))], sub := none }]
-              [] (some (.sc .none)) []) := by decide
+              [] (some (.sc .none)) [] []) := by decide
 /-- `print_help` before the first parse of a parser with a constructor `config_path=` file (repaired by e83a7f8:
     the file is applied before the arguments are generated): the later parse sees the file's defaults -/
 def helpCtorHist : List Op := mkP 0 cU clsA "a" (fs := ["f0.json"]) ++ [.printHelp 0, .parse 0 false []]
 theorem helpCtor_regression : allAgree env0 init helpCtorHist = true := by decide
 example : (runHist env0 init helpCtorHist).getLast? =
-    some (.ok [{ dest := "a".toList, cls := "A".toList, fields := [("a_b".toList, .sc (.int 7))], sub := none }] [] none []) := by
+    some (.ok [{ dest := "a".toList, cls := "A".toList, fields := [("a_b".toList, .sc (.int 7))], sub := none }] [] none [] []) := by
   decide
 /-- the class attributes follow the constructors and — since the repair — the set-up of a parser -/
 example : runG env0 init d5Hist = [cD, cD, cU, cD] := by decide
@@ -973,17 +1252,37 @@ def demoHist : List Op :=
   mkP 1 cD clsK "k" ++ [.parse 1 false (argvOf ["--tag", "12"]), .parse 2 false (argvOf ["--tag", "abc"])] ++
   mkP 2 cW clsA "a" (fs := ["r0.json"]) ++ [.parse 2 false [], .parse 0 false (argvOf ["--a-b=9"])]
 
-example : safeHist env0 init demoHist = true := by decide
-example : allAgree env0 init demoHist = true :=
-  c08_partial_safeHist env0 demoHist init inv_init (by decide)
-example : (runHist env0 init demoHist).getLast? =
-    some (.ok [{ dest := "a".toList, cls := "A".toList, fields := [("a_b".toList, .sc (.int 9))], sub := none }] [] none []) := by
+/-- constructor `config_path=` parsers beyond their first call: rooted file, and root-less file of a WITHOUT_ROOT
+    parser over a class WITHOUT subgroups; valid, rejected and help calls in between; `ctorReloadSafe` holds throughout -/
+def ctorReparseHist : List Op :=
+  mkP 0 cU clsA "a" (fs := ["f0.json"]) ++ [.parse 0 false [], .parse 0 false (argvOf ["--a_b", "3"]),
+    .parse 0 false (argvOf ["--a_b", "x"]), .printHelp 0, .parse 0 false []] ++
+  mkP 1 cW clsA "a" (fs := ["r0.json"]) ++ [.printHelp 1, .parse 1 false [], .parse 0 true (argvOf ["--zz"]),
+    .parse 1 false (argvOf ["--a_b=4"]), .parse 1 false []]
+example : safeHist env0 init ctorReparseHist = true := by decide
+example : allAgree env0 init ctorReparseHist = true :=
+  c08_partial_safeHist env0 rfl ctorReparseHist init inv_init (by decide)
+example : (runHist env0 init ctorReparseHist).getLast? =
+    some (.ok [{ dest := "a".toList, cls := "A".toList, fields := [("a_b".toList, .sc (.int 13))], sub := none }] [] none [] []) := by
   decide
 
+example : safeHist env0 init demoHist = true := by decide
+example : allAgree env0 init demoHist = true :=
+  c08_partial_safeHist env0 rfl demoHist init inv_init (by decide)
+example : (runHist env0 init demoHist).getLast? =
+    some (.ok [{ dest := "a".toList, cls := "A".toList, fields := [("a_b".toList, .sc (.int 9))], sub := none }] [] none [] []) := by
+  decide
+
+/-- an answer-only violation does not taint: `--mod y`, `--mod x` (wrong answer, excluded), `--mod y` again — the
+    third call is `safe`, its parser never left the invariant, so `c08_partial` covers it -/
+def d9ThenFineHist : List Op := d9Hist ++ [.parse 0 false (argvOf ["--mod", "y", "--yv", "4"])]
+example : (d9ThenFineHist.foldl (fun (st : State × (Nat → Bool)) op => ((step env0 st.1 op).1, taintStep env0 st.1 st.2 op))
+    (init, fun _ => false)).2 0 = false := by decide
+
 /-- the monitored form also speaks about histories that DO contain unsafe calls: here parser 0 is abused (D9) and
-    the theorem still covers every call on parser 1 -/
+    the theorem still covers every call on parser 1 — and the later calls on parser 0 as well -/
 example : Monitored env0 init (fun _ => false) (d9Hist ++ mkP 1 cD clsA "a" ++ [.parse 1 false (argvOf ["--a-b", "3"])]) :=
-  c08_partial_init env0 _
+  c08_partial_init env0 rfl _
 
 
 end SpVerif.C08
